@@ -207,15 +207,19 @@ func CreateAuthenticators(cfg AuthConfig) []Authenticator {
 	var auths []Authenticator
 
 	if cfg.Enabled {
-		// Prefer hashed credentials if available
+		// Always install the username/password authenticator when authentication
+		// is enabled. With no usable user the credential store is empty and every
+		// login is rejected; leaving the list empty instead would make
+		// NewServer/NewHandler fall back to the no-auth authenticator.
+		var creds CredentialStore
 		if len(cfg.HashedUsers) > 0 {
-			creds := HashedCredentials(cfg.HashedUsers)
-			auths = append(auths, NewUserPassAuthenticator(creds))
-		} else if len(cfg.Users) > 0 {
+			// Prefer hashed credentials if available
+			creds = HashedCredentials(cfg.HashedUsers)
+		} else {
 			// Fall back to plaintext credentials (deprecated)
-			creds := StaticCredentials(cfg.Users)
-			auths = append(auths, NewUserPassAuthenticator(creds))
+			creds = StaticCredentials(cfg.Users)
 		}
+		auths = append(auths, NewUserPassAuthenticator(creds))
 	}
 
 	if !cfg.Required {
